@@ -133,7 +133,9 @@ VH_DRIVER(query){
       int rc=uriComposeQueryCharsRequiredExA(&item,&req,URI_TRUE,nb);
       g.event(J().str("e","ComposeReqGiant").num("km",sh.km).num("vm",sh.vm).boo("nb",nb).num("rc",rc).boo("nonneg",req>=0).num("reqm",req/1000000).done());
       if((nb?6:3)*(sh.km+sh.vm)>2147){ char*out=(char*)0x1; int rcm=uriComposeQueryMallocExA(&out,&item,URI_TRUE,nb);
-        g.event(J().str("e","ComposeMallocGiant").num("km",sh.km).num("vm",sh.vm).boo("nb",nb).num("rc",rcm).boo("untouched",out==(char*)0x1||out==nullptr).done()); if(rcm==URI_SUCCESS&&out&&out!=(char*)0x1) free(out); } } }
+        bool textOK=false; if(rcm==URI_SUCCESS&&out&&out!=(char*)0x1){ /* an implementation that sizes the text exactly may succeed: then the text must be right */
+          size_t kl=(size_t)sh.km*1000000u, vl=(size_t)sh.vm*1000000u, want=kl+(sh.v? 1+vl:0), n=strlen(out); textOK= n==want; for(size_t i=0;i<n&&textOK;++i) if(out[i]!=((sh.v&&i==kl)?'=':'a')) textOK=false; }
+        g.event(J().str("e","ComposeMallocGiant").num("km",sh.km).num("vm",sh.vm).boo("nb",nb).num("rc",rcm).boo("untouched",out==(char*)0x1||out==nullptr).boo("textOK",textOK).done()); if(rcm==URI_SUCCESS&&out&&out!=(char*)0x1) free(out); } } }
   // the INT_MAX boundary itself: lists whose exact worst-case size is INT_MAX-3 .. INT_MAX+3.  All keys point into ONE shared buffer of 2^20
   // characters (the measuring call only walks them), empty-key filler items (one '&' each) tune the total to the character; the last item comes
   // with and without a value.  Lengths are logged, TLC adds them up in base 2^20 (its integers are 32 bit).
@@ -152,6 +154,7 @@ VH_DRIVER(query){
       g.event(J().str("e","ComposeReqBoundary").boo("nb",nb).num("d",d).raw("items",jlist(ji)).num("rc",rc).boo("nonneg",req>=0).num("reqhi",r>>20).num("reqlo",r&(M-1)).done()); g.count("boundary"+std::to_string(nb*100+lastval*10+d),true);
       // the allocating variant when the figure is INT_MAX or beyond: the terminator no longer fits an int - refused, nothing handed out
       if(d>=0){ char*out=(char*)0x1; int rcm=uriComposeQueryMallocExA(&out,nodes.data(),URI_TRUE,nb?URI_TRUE:URI_FALSE);
-        g.event(J().str("e","ComposeMallocBoundary").boo("nb",nb).num("d",d).raw("items",jlist(ji)).num("rc",rcm).boo("untouched",out==(char*)0x1||out==nullptr).done()); if(rcm==URI_SUCCESS&&out&&out!=(char*)0x1) free(out); } } }
+        bool textOK=false; if(rcm==URI_SUCCESS&&out&&out!=(char*)0x1){ size_t want=items.size()-1; for(auto&it:items) want+=(size_t)it[0]+(it[1]? 1+(size_t)it[2]:0); size_t n=strlen(out); textOK= n==want; for(size_t i=0;i<n&&textOK;++i) if(out[i]!='a'&&out[i]!='&'&&out[i]!='=') textOK=false; }
+        g.event(J().str("e","ComposeMallocBoundary").boo("nb",nb).num("d",d).raw("items",jlist(ji)).num("rc",rcm).boo("untouched",out==(char*)0x1||out==nullptr).boo("textOK",textOK).done()); if(rcm==URI_SUCCESS&&out&&out!=(char*)0x1) free(out); } } }
   return 0;
 }
